@@ -53,6 +53,7 @@ fn main() {
         ("drive", "cfb") => isolate::run_drive(&args, props::cfb::drive),
         ("replay", "ods") => props::ods::replay(&args),
         ("drive", "ods") => props::ods::drive(&args),
+        ("drive", "odsfile") => props::ods::file(&args),
         ("replay", "xlsb") => props::xlsb::replay(&args),
         ("replay", "xlsbframes") => props::xlsb::frames(&args),
         ("drive", "xlsb") => props::xlsb::drive(&args),
